@@ -29,6 +29,10 @@ def routing_case(draw, n=(2, 6), extra_max=4, parallel=False, max_req=4):
     chain_kw = {'spans': (1, 2), 'fiber_kw': {'lumped': False, 'per_freq_loss': False}}
     topo, truth = draw(netgen.topology(eq, n=n, extra_max=extra_max, parallel=parallel, chain_kw=chain_kw,
                                        per_degree=False, own_policy=False))
+    # some fibres are longer than max_length: auto-design splits them and must keep the edge weights (fibre lengths)
+    for f in [e for e in topo['elements'] if e['type'] == 'Fiber']:
+        if draw(st.integers(0, 5)) == 0:
+            f['params']['length'] = round(f['params']['length'] * draw(st.sampled_from([3.0, 5.0])), 3)
     reqs = []
     for i in range(draw(st.integers(1, max_req))):
         src = draw(st.integers(0, truth['n'] - 1))
